@@ -128,10 +128,12 @@ pub fn keys(kt: KeyType) -> Vec<RefKey> {
         KeyType::I32 => vec![RefKey::I32(-70_000), RefKey::I32(2), RefKey::I32(126), RefKey::I32(i32::MIN)],
         KeyType::U64 => vec![RefKey::U64(1 << 40), RefKey::U64(0), RefKey::U64(248), RefKey::U64(u64::MAX)],
         KeyType::I64 => vec![RefKey::I64(-(1 << 40)), RefKey::I64(3), RefKey::I64(124), RefKey::I64(i64::MIN)],
+        // (the first key needs the multi-byte form of its length prefix)
         KeyType::String => vec![
+            RefKey::String(vec![b'k'; 252]),
             RefKey::String("é".as_bytes().to_vec()),
             RefKey::String(vec![]),
-            RefKey::String(vec![b'k'; 252]),
+            RefKey::String(vec![b'q'; 251]),
         ],
         KeyType::Uuid => uuids().into_iter().map(RefKey::Uuid).collect(),
     }
